@@ -341,7 +341,7 @@ func c15Checker(c *Ctx, f *Fn, isZip bool) {
 		return nil
 	}
 	gates := []gateSpec{
-		{"clean-path", atomEqCall(info, "path.Clean"), true, "a name that is not path.Clean'ed (.., ./, //) must be rejected"},
+		{"clean-path", atomEqCallIn(f, info, "path.Clean"), true, "a name that is not path.Clean'ed (.., ./, //) must be rejected"},
 		{"check-file-path", atomErrVar(info, errVarOf("mod/module.CheckFilePath")), true, "module.CheckFilePath must accept the name"},
 		{"local-module", atomEqConst(info, "cue.mod/local-module.cue", true), true, "cue.mod/local-module.cue is never part of a module"},
 		{"collision", atomErrVar(info, errVarOf(mz+"collisionChecker.check")), true, "case-fold / file-vs-directory collisions must be rejected"},
